@@ -1,7 +1,9 @@
 (* C08 -- update histories.  [flat_run]: what a history means for the zone's
-   content (a flat record list).  The faithful model shows that the answers of
-   a zone reached through ZoneUpdater / the write interface depend on the
-   history, not only on the content: one concrete witness per class. *)
+   content (a flat record list).  Since the repair 1953e6b (a node is a name
+   only if it exists) markers and left-over nodes no longer matter; what remains
+   history dependent is the delegation / alias state kept in `Special`: one
+   concrete witness per remaining class, and the former witnesses as positive
+   regression examples. *)
 From Coq Require Import NArith List Bool Lia.
 From DV Require Import Base.Outcome C08.Gen C08.Model C08.Spec C08.ProofsQuery.
 Import ListNotations.
@@ -70,38 +72,10 @@ Definition h_k1 : list op := [OZRec soa1; OUNew; OUAdd (mkG [lb; la] T_A 101 (to
 Lemma k1_content : content h_k1 = [mkG [lb; la] T_A 101 (tok 5); soa1].
 Proof. reflexivity. Qed.
 
-Lemma updater_descendant_nxdomain_refuted :
-  exists h q qt, a_rcode (query (run h) q qt) = rc_nxdomain /\
-                 a_rcode (query (build (content h)) q qt) = rc_noerror /\
-                 (exists r, a_content (query (build (content h)) q qt) = AData r) /\ ~ history_ok h q qt.
-Proof.
-  exists h_k1, [lb; la], T_A. repeat split; try (vm_compute; reflexivity).
-  - eexists. vm_compute. reflexivity.
-  - unfold history_ok. vm_compute. discriminate.
-Qed.
-
-Lemma updater_ent_nxdomain_refuted :
-  exists h q qt, a_rcode (query (run h) q qt) = rc_nxdomain /\
-                 a_rcode (query (build (content h)) q qt) = rc_noerror /\
-                 a_content (query (build (content h)) q qt) = ANoData /\ ~ history_ok h q qt.
-Proof.
-  exists h_k1, [lb], T_A. repeat split; try (vm_compute; reflexivity).
-  unfold history_ok. vm_compute. discriminate.
-Qed.
-
 (* K2: foo's only RRset is deleted; the node stays and hides `*` *)
 Definition h_k2 : list op :=
   [OZRec soa1; OZRec (mkG [wild_label] T_A 101 (tok 3)); OZRec (mkG [lfoo] T_A 101 (tok 4));
    OUNew; OUDel (mkG [lfoo] T_A 101 (tok 4)); OUFin 60 (tok 1)].
-
-Lemma deleted_name_shadows_wildcard_refuted :
-  exists h q qt, a_rcode (query (run h) q qt) = rc_nxdomain /\
-                 (exists r, a_content (query (build (content h)) q qt) = AData r) /\ ~ history_ok h q qt.
-Proof.
-  exists h_k2, [lfoo], T_A. repeat split; try (vm_compute; reflexivity).
-  - eexists. vm_compute. reflexivity.
-  - unfold history_ok. vm_compute. discriminate.
-Qed.
 
 (* K3: NS / CNAME through the updater stay plain RRsets *)
 Definition lsub := L 115. Definition lns := L 110. Definition lal := L 108.
@@ -147,16 +121,22 @@ Definition h_repl : list op :=
   [OZRec soa1; OZRec (mkG [lfoo] T_A 101 (tok 4)); OUNew; OUDelAll; OUAdd (mkG [la] T_A 101 (tok 5)); OUFin 60 (tok 2)].
 Definition h_abort : list op := [OZRec soa1; OUNew; OUAdd (mkG [lb; la] T_A 101 (tok 5)); OUDrop].
 
-Lemma stale_node_nodata_refuted :
-  (exists h q qt, a_rcode (query (run h) q qt) = rc_noerror /\
-                  a_rcode (query (build (content h)) q qt) = rc_nxdomain /\ ~ history_ok h q qt) /\
-  (content h_abort = [soa1] /\ a_rcode (query (run h_abort) [lb] T_A) = rc_noerror /\ ~ history_ok h_abort [lb] T_A).
-Proof.
-  split.
-  - exists h_repl, [lfoo], T_A. repeat split; try (vm_compute; reflexivity).
-    unfold history_ok. vm_compute. discriminate.
-  - repeat split; try (vm_compute; reflexivity). unfold history_ok. vm_compute. discriminate.
-Qed.
+(* the former witnesses of updater_descendant_nxdomain, updater_ent_nxdomain,
+   deleted_name_shadows_wildcard and stale_node_nodata now answer like the
+   rebuilt zone (the general statement is ProofsPlain.plain_history_independent) *)
+Example former_witnesses_fixed :
+  history_ok h_k1 [lb; la] T_A /\ history_ok h_k1 [lb] T_A /\ history_ok h_k1 [lb; lfoo] T_A /\
+  history_ok h_k2 [lfoo] T_A /\ history_ok h_k2 [lfoo; la] T_A /\ history_ok h_k2 [lfoo] T_TXT /\
+  history_ok h_repl [lfoo] T_A /\ history_ok h_repl [la] T_A /\
+  history_ok h_abort [lb] T_A /\ history_ok h_abort [lb; la] T_A.
+Proof. unfold history_ok. repeat split; vm_compute; reflexivity. Qed.
+
+Example former_witnesses_answers :
+  a_rcode (query (run h_k1) [lb; la] T_A) = rc_noerror /\
+  a_content (query (run h_k1) [lb] T_A) = ANoData /\ a_rcode (query (run h_k1) [lb] T_A) = rc_noerror /\
+  (exists r, a_content (query (run h_k2) [lfoo] T_A) = AData r) /\
+  a_rcode (query (run h_repl) [lfoo] T_A) = rc_nxdomain /\ a_rcode (query (run h_abort) [lb] T_A) = rc_nxdomain.
+Proof. repeat split; try (vm_compute; reflexivity). eexists. vm_compute. reflexivity. Qed.
 
 (* non-vacuity of history_ok: an update that keeps the tree canonical *)
 Definition h_fine : list op :=
